@@ -792,6 +792,12 @@ func (m *Manager) configureTasks(envId uid.ID, tasks Tasks) error {
 		if respError != nil {
 			errText := respError.Error()
 			if len(strings.TrimSpace(errText)) != 0 {
+				// single response = single target: as above, only a critical task fails the transition
+				if len(tasks) == 1 && tasks[0] != nil && !tasks[0].GetTraits().Critical {
+					log.WithField("partition", envId).
+						Warnf("CONFIGURE could not complete for non-critical task, error: %s", errText)
+					return nil
+				}
 				return errors.New(response.Err().Error())
 			}
 			// FIXME: improve error handling ↑
@@ -877,6 +883,12 @@ func (m *Manager) transitionTasks(envId uid.ID, tasks Tasks, src string, event s
 		if respError != nil {
 			errText := respError.Error()
 			if len(strings.TrimSpace(errText)) != 0 {
+				// single response = single target: as above, only a critical task fails the transition
+				if len(tasks) == 1 && tasks[0] != nil && !tasks[0].GetTraits().Critical {
+					log.WithField("partition", envId).
+						Warnf("%s could not complete for non-critical task, error: %s", event, errText)
+					return nil
+				}
 				return errors.New(response.Err().Error())
 			}
 			// FIXME: improve error handling ↑
